@@ -25,12 +25,22 @@ theorem code_lookup_unique (a : Artifact) (h : wfArtifact a = true) (f : Fn) (hf
 only negative, word-aligned slots inside the (extended) frame; interior pointers have room for two words -/
 def MapOK (f : Fn) (extra : Nat) (g : GcPoint) : Prop :=
   (∀ o ∈ g.offsets, o < 0 ∧ o % 8 = 0 ∧ -o ≤ (f.frame + extra : Nat)) ∧
-  (∀ o ∈ g.interior, o < 0 ∧ o % 8 = 0 ∧ -o ≤ (f.frame + extra : Nat) ∧ o + 8 < 0)
+  (∀ o ∈ g.interior, o < 0 ∧ o % 8 = 0 ∧ -o ≤ (f.frame + extra : Nat) ∧ o + 8 < 0) ∧
+  -- no stack word is named twice: ordinary slots are pairwise distinct, and neither word of an interior pair
+  -- (pointer at `o`, object base at `o + 8`) is an ordinary slot
+  g.offsets.Nodup ∧
+  (∀ o ∈ g.interior, o ∉ g.offsets ∧ o + 8 ∉ g.offsets)
+
+theorem distinctOffsets_nodup : ∀ (l : List Int), distinctOffsets l = true → l.Nodup
+  | [], _ => List.nodup_nil
+  | a :: r, h => by
+    simp only [distinctOffsets, Bool.and_eq_true, Bool.not_eq_true', List.contains_eq_mem, decide_eq_false_iff_not] at h
+    exact List.nodup_cons.mpr ⟨h.1, distinctOffsets_nodup r h.2⟩
 
 theorem gcpointOK_MapOK (f : Fn) (g : GcPoint) (h : gcpointOK f g = true) : MapOK f (extraAt f g.pc) g := by
   simp only [gcpointOK, Bool.and_eq_true, List.all_eq_true] at h
-  obtain ⟨⟨_, ho⟩, hi⟩ := h
-  constructor
+  obtain ⟨⟨⟨⟨_, ho⟩, hi⟩, hd⟩, hdis⟩ := h
+  refine ⟨?_, ?_, distinctOffsets_nodup _ hd, ?_⟩
   · intro o ho'
     have := ho o ho'
     simp only [slotOK, Bool.and_eq_true, decide_eq_true_eq] at this
@@ -39,6 +49,11 @@ theorem gcpointOK_MapOK (f : Fn) (g : GcPoint) (h : gcpointOK f g = true) : MapO
     have := hi o ho'
     simp only [interiorOK, slotOK, Bool.and_eq_true, decide_eq_true_eq] at this
     exact ⟨this.1.1.1, this.1.1.2, this.1.2, this.2⟩
+  · intro o ho'
+    simp only [interiorDisjoint, Bool.and_eq_true, List.all_eq_true] at hdis
+    have := hdis.1.1 o ho'
+    simp only [Bool.and_eq_true, Bool.not_eq_true', List.contains_eq_mem, decide_eq_false_iff_not] at this
+    exact this
 
 /-- "every such address resolves to exactly one function" for the addresses the runtime actually looks up: the return
 address of every call of a compiled function after which the frame may be walked by a collection, or whose handler
@@ -113,7 +128,7 @@ theorem tables_ordered (a : Artifact) (h : wfArtifact a = true) (f : Fn) (hf : f
   intro g hgm
   have := hg g hgm
   simp only [gcpointOK, Bool.and_eq_true, decide_eq_true_eq] at this
-  exact this.1.1
+  exact this.1.1.1.1
 
 /-- non-vacuity: a two-function artifact (one compiled function with a call into a runtime-entry
 trampoline and a slow-path call with pushed registers) is accepted, and a variant whose map is missing is
@@ -140,6 +155,9 @@ example : wfArtifact ⟨[exFn, exTramp], false⟩ = true := by decide +kernel
 example : wfArtifact ⟨[{ exFn with gcps := [⟨40, [-8, -24], []⟩] }, exTramp], false⟩ = false := by decide +kernel
 example : wfArtifact ⟨[{ exFn with gcps := [⟨40, [-8, -48], []⟩, ⟨80, [-8], []⟩] }, exTramp], false⟩ = false := by decide +kernel
 example : wfArtifact ⟨[exFn, { exTramp with start := 90 }], false⟩ = false := by decide +kernel
+/-- an interior pair whose base word (`-32 + 8 = -24`) is also an ordinary slot, and a slot listed twice: rejected -/
+example : wfArtifact ⟨[{ exFn with gcps := [⟨40, [-8, -24], [-32]⟩, ⟨80, [-8, -40, -48], [-32]⟩] }, exTramp], false⟩ = false := by decide +kernel
+example : wfArtifact ⟨[{ exFn with gcps := [⟨40, [-8, -8], []⟩, ⟨80, [-8, -40, -48], [-32]⟩] }, exTramp], false⟩ = false := by decide +kernel
 /-- the trap call as the very last instruction of a function that fills its slot exactly (return offset 96 = size):
 rejected — the address would resolve to the trampoline that follows -/
 def exFnLast : Fn :=
